@@ -23,7 +23,7 @@ RULE = ("one evaluation = one captured aggregate-interval computation (aggregate
         "among nonreporting units, levels); non-trivial = at least two different sources were used in the same computation, or a "
         "group had no calibration unit at all")
 ASSUMPTIONS = [
-    "the scale is re-bootstrapped with scipy.stats.bootstrap (trusted) and must agree within 10 % (bit-for-bit agreement with the model's seed is only counted as a probe); with winsorize=True only the 'same source => same scale' clause is checked",
+    "the scale is re-bootstrapped with scipy.stats.bootstrap (trusted) and must agree within 4 % (bit-for-bit agreement with the model's seed is only counted as a probe); with winsorize=True only the 'same source => same scale' clause is checked",
     "reported bounds are compared with the formula at +-1 vote (rounding)",
     "centre / inflation compared at 1e-12 relative",
 ]
@@ -164,8 +164,8 @@ class Checker(C.BaseChecker):
                         if C.close(sig[0], want_s[0], rel=1e-12) and C.close(sig[1], want_s[1], rel=1e-12):
                             st.probes["scale_reproduced_bit_for_bit"] += 1
                         # the statement asks for the bootstrapped scale of the source's calibration units, not for a particular
-                        # generator state: 10 % covers the Monte-Carlo error of 10 000 resamples many times over
-                        if not (C.close(sig[0], want_s[0], rel=0.10, abs_=1e-12) and C.close(sig[1], want_s[1], rel=0.10, abs_=1e-12)):
+                        # generator state: 4 % covers the Monte-Carlo error of 10 000 resamples (about 1 %) several times over
+                        if not (C.close(sig[0], want_s[0], rel=0.04, abs_=1e-12) and C.close(sig[1], want_s[1], rel=0.04, abs_=1e-12)):
                             out.append(self.v("wrong_scale", f"{keys}{g} level {alpha}: scale {sig} but bootstrapping the scores of its source ({label}, n={len(idx)}) gives {want_s}", **flags))
                 # unadjusted group bounds and weights from the units of g
                 jj = np.array([i for i, k in enumerate(non_keys) if k == g], dtype=int)
